@@ -258,6 +258,6 @@ func urlHasUserinfo(u *url.URL) bool {
 	if u.User != nil {
 		return true
 	}
-	authority, _, _ := strings.Cut(u.Opaque, "/")
+	authority, _, _ := strings.Cut(strings.TrimLeft(u.Opaque, "/"), "/")
 	return strings.Contains(authority, "@")
 }
